@@ -229,16 +229,18 @@ def Chain.toStage : {α β : Type} → Chain α β → Stage α β
 
 /-! ### concrete beats (what the harness logs) -/
 
-/-- payload of one beat: data word and the meta signals of `metaSignals.h`. `eop`/`sop` are separate because
-    `reduceWidth` rewrites them; all other meta signals (error, txid, empty) are carried as one opaque word. -/
+/-- payload of one beat: data word and the meta signals of `metaSignals.h`. `eop`/`sop` and the byte enables `be` are
+    separate because the width changers rewrite them; all other meta signals (error, txid, empty) are carried as one opaque
+    word. Streams without `ByteEnable` have `be = 0` (width 0). -/
 structure Beat where
   data : Nat
   eop : Bool
   sop : Bool
   aux : Nat
+  be : Nat
   deriving Repr, BEq, DecidableEq, Inhabited
 
-def Beat.zero : Beat := ⟨0, false, false, 0⟩
+def Beat.zero : Beat := ⟨0, false, false, 0, 0⟩
 
 /-- little-endian concatenation of `w`-bit words: first word in the low bits (`makeShiftReg` shifts right, so the oldest
     word ends up lowest) -/
@@ -246,21 +248,30 @@ def packWords (w : Nat) : List Nat → Nat
   | [] => 0
   | x :: xs => x % 2 ^ w + 2 ^ w * packWords w xs
 
-/-- `source->part(ratio, i)`: word `i` of width `w` -/
+/-- `source->part(ratio, i)` / `byteEnable(source)(i * w, w)`: word `i` of width `w` -/
 def partWord (w i x : Nat) : Nat := (x / 2 ^ (w * i)) % 2 ^ w
 
-def extMk (w : Nat) (slots : List Nat) (x : Beat) : Beat := { x with data := packWords w slots }
+/-- what `extendWidth` keeps per accepted beat in its shift registers (utils.h:559 data, utils.h:561-567 byte enables —
+    two `makeShiftReg`s with the same enable `transfer(source)`, modelled as one register of pairs) -/
+def extSlot (x : Beat) : Nat × Nat := (x.data, x.be)
 
-def redSlice (ratio w : Nat) (i : Nat) (x : Beat) : Beat :=
-  { x with data := partWord w i x.data, eop := x.eop && (i + 1 == ratio), sop := x.sop && (i == 0) }
+/-- output beat of `extendWidth`: data words and byte-enable groups of the slots concatenated in the same order
+    (`w` / `bw` = width of one input data word / of one input byte-enable group), other meta signals from the current beat -/
+def extMk (w bw : Nat) (slots : List (Nat × Nat)) (x : Beat) : Beat :=
+  { x with data := packWords w (slots.map Prod.fst), be := packWords bw (slots.map Prod.snd) }
+
+/-- part `i` of `reduceWidth`: data word `i`, byte-enable group `i` (utils.h:596-602:
+    `be = byteEnable(source)(zext(counter.value(), +w) * w.bits(), w)`), eop on the last part, sop on the first -/
+def redSlice (ratio w bw : Nat) (i : Nat) (x : Beat) : Beat :=
+  { x with data := partWord w i x.data, be := partWord bw i x.be, eop := x.eop && (i + 1 == ratio), sop := x.sop && (i == 0) }
 
 /-- stage descriptions as printed by the harness -/
 inductive Desc
   | ds | dsb | rr | dec | stall
   | dly (n : Nat)
   | fifo (depth lat : Nat) (ft : Bool)
-  | ext (ratio w : Nat)      -- `w` = input width
-  | red (ratio w : Nat)      -- `w` = output width
+  | ext (ratio w bw : Nat)   -- `w` / `bw` = input data / byte-enable width
+  | red (ratio w bw : Nat)   -- `w` / `bw` = output data / byte-enable width
   deriving Repr, BEq
 
 def Desc.stage : Desc → Stage Beat Beat
@@ -271,8 +282,8 @@ def Desc.stage : Desc → Stage Beat Beat
   | .stall => Gatery.C16.stall
   | .dly n => delay Beat.zero n
   | .fifo d l ft => Gatery.C16.fifo Beat.zero d l ft
-  | .ext r w => extendWidth r 0 Beat.data (extMk w)
-  | .red r w => reduceWidth r (redSlice r w)
+  | .ext r w bw => extendWidth r (0, 0) extSlot (extMk w bw)
+  | .red r w bw => reduceWidth r (redSlice r w bw)
 
 def chainOf : List Desc → Chain Beat Beat
   | [] => .nil
